@@ -119,7 +119,7 @@ func c05StoreBFS(driver string, ids []string, depth, shard, nshards int) vh.Unit
 			},
 			Key: func(wi interface{}) string {
 				w := wi.(*c05World)
-				return fmt.Sprintf("%d|%s", vsched.Elapsed(), w.model.key())
+				return fmt.Sprintf("%d|%s|%s", vsched.Elapsed(), w.model.key(), vh.StateKey(w.st))
 			},
 		}
 		vh.RunBFS(u, spec)
@@ -343,7 +343,7 @@ func c05PoolBFS(driver string, depth int) vh.Unit {
 			},
 			Key: func(wi interface{}) string {
 				w := wi.(*world)
-				return fmt.Sprintf("%d|%s", vsched.Elapsed(), w.model.key())
+				return fmt.Sprintf("%d|%s|%s", vsched.Elapsed(), w.model.key(), vh.StateKey(w.pw.Raw))
 			},
 		}
 		vh.RunBFS(u, spec)
